@@ -80,6 +80,21 @@ func checkC19(c *Ctx, r *Report) {
 		})
 	}
 	_ = nAcc
+	// no dialer is called while the registry lock is held: a dial can take minutes, and a dialer
+	// that delegates through the registry would deadlock on itself
+	for _, fn := range c.SrcFuncs(pkg) {
+		var held map[ssa.Instruction]bool
+		for _, ci := range allCalls(fn) {
+			if !ci.Common().IsInvoke() {
+				continue
+			}
+			if held == nil {
+				held = heldAt(fn, isLock, isUnlock)
+			}
+			r.Check("C19-lock", fnName(fn), "call-out "+c.exprAt(fn, ci.Pos()), c.pos(ci.Pos()), !held[ci],
+				"made without holding dialers.mu", "an interface call (a dialer) is made while dialers.mu is held: concurrent register/unregister/dial calls block for the whole dial, and a dialer that dials through the registry deadlocks")
+		}
+	}
 
 	// ---- C19-crash
 	r.Rule("C19-crash", 1, "crash-site inventory from ParseURL/DialURL/DialURLContext")
@@ -261,6 +276,63 @@ func checkC19(c *Ctx, r *Report) {
 			o.OK("a return of ErrDigisUnsupported, taken when digipeaters are present and the scheme is one of the constants compared, guards the success return")
 		} else {
 			o.Bad("no guard returning ErrDigisUnsupported (depending on the number of digipeaters and on the scheme being ardop or telnet) dominates the success return")
+		}
+		// the host query parameter overrides the host whenever it is non-empty
+		o = r.Add("C19-dispatch", where, "host parameter overrides the host", c.pos(fn.Pos()))
+		{
+			var hostStore *ssa.Store
+			eachInstr(fn, func(_ *ssa.BasicBlock, _ int, instr ssa.Instruction) {
+				st, ok := instr.(*ssa.Store)
+				if !ok {
+					return
+				}
+				fa, ok := st.Addr.(*ssa.FieldAddr)
+				if !ok || fieldName(fa.X.Type(), fa.Field) != "Host" {
+					return
+				}
+				if dependsOn(st.Val, func(v ssa.Value) bool {
+					call, ok := v.(*ssa.Call)
+					if !ok || callName(&call.Call) != "net/url.Values.Get" {
+						return false
+					}
+					k, _ := constString(call.Call.Args[1])
+					return k == "host"
+				}) {
+					hostStore = st
+				}
+			})
+			switch {
+			case hostStore == nil:
+				o.Bad("the 'host' query parameter is never stored in URL.Host")
+			default:
+				bad := ""
+				nonEmpty := false
+				for _, cd := range condsAt(hostStore.Block()) {
+					if !instrDominates(cd.If, hostStore) {
+						continue
+					}
+					b, isB := cd.V.(*ssa.BinOp)
+					if isB {
+						if sv, isS := constString(b.Y); isS && sv == "" && (b.X == hostStore.Val || pathOf(b.X) == pathOf(hostStore.Val)) && (b.Op == token.NEQ) == cd.Truth {
+							nonEmpty = true
+							continue
+						}
+					}
+					if dependsOn(cd.V, func(v ssa.Value) bool {
+						ld, ok := v.(*ssa.UnOp)
+						return ok && ld.Op == token.MUL && strings.HasSuffix(pathOf(ld), ".Host")
+					}) {
+						bad = "the override is made conditional on the current value of the host at " + c.pos(cd.V.Pos())
+					}
+				}
+				if bad != "" {
+					o.Bad("%s: a URL with both an authority host and ?host= keeps the wrong one", bad)
+				} else if !nonEmpty {
+					o.Bad("the host is overwritten even when the parameter is empty")
+				} else {
+					o.OK("URL.Host = Params.Get(\"host\") whenever that value is non-empty, whatever the authority host")
+				}
+			}
 		}
 		o = r.Add("C19-dispatch", where, "target and digipeaters are upper-cased", c.pos(fn.Pos()))
 		isUpper := func(v ssa.Value) bool {
